@@ -1,0 +1,13 @@
+//go:build verif
+
+package j5reflect
+
+// Contracts for contract-based verification (/verif, properties C06, C03, C01, C18).
+
+// A value handed to protobuf-go's List.Append / Map.Set must be valid: these two helpers pass their
+// argument straight through, so validity is their precondition and every caller is checked for it.
+//@ func (*leafArrayField).appendProtoValue
+//@   requires valid: pvValid(value)
+
+//@ func (*leafMapField).setKey
+//@   requires valid: pvValid(val)
